@@ -305,3 +305,64 @@ pub proof fn lemma_not_desc_of_zero(f: &Fsm, s: u32)
         lemma_not_desc_of_zero(f, parent_of(f, s));
     }
 }
+
+// ---- subtree height (termination measure of the entry-set recursion) ----------------------------
+pub open spec fn max_rank_upto(r: Seq<nat>, k: int) -> nat
+    decreases k,
+{
+    if k <= 0 {
+        0
+    } else if r[k - 1] > max_rank_upto(r, k - 1) {
+        r[k - 1]
+    } else {
+        max_rank_upto(r, k - 1)
+    }
+}
+
+pub open spec fn maxr(f: &Fsm) -> nat {
+    max_rank_upto(rank(f), rank(f).len() as int)
+}
+
+/// height-like measure: larger for ancestors than for their descendants
+pub open spec fn ht(f: &Fsm, s: u32) -> int {
+    maxr(f) - rk(f, s)
+}
+
+pub proof fn lemma_max_rank_bound(r: Seq<nat>, k: int, i: int)
+    requires
+        0 <= i < k <= r.len(),
+    ensures
+        r[i] <= max_rank_upto(r, k),
+    decreases k,
+{
+    if i < k - 1 {
+        lemma_max_rank_bound(r, k - 1, i);
+    }
+}
+
+pub proof fn lemma_ht(f: &Fsm, s: u32)
+    requires
+        wf_tree(f),
+        valid_id(f, s),
+    ensures
+        ht(f, s) >= 0,
+        parent_of(f, s) != 0 ==> ht(f, parent_of(f, s)) > ht(f, s),
+{
+    assert(has_rank(f, rank(f)));
+    lemma_max_rank_bound(rank(f), rank(f).len() as int, s as int - 1);
+    if parent_of(f, s) != 0 {
+        lemma_rank(f, s);
+    }
+}
+
+pub proof fn lemma_desc_ht(f: &Fsm, a: u32, b: u32)
+    requires
+        wf_tree(f),
+        is_desc(f, a, b),
+    ensures
+        ht(f, a) < ht(f, b),
+        ht(f, a) >= 0,
+{
+    lemma_desc_rank(f, a, b);
+    lemma_ht(f, a);
+}
